@@ -70,9 +70,9 @@ func verifIdentityCheck(root string) {
 	verif.Assert("round-trip", got == name)
 }
 
-// VerifFindingIdentityTrailingSlashRoot: same with a trailing slash on the root
-// or the filesystem root itself.
-func VerifFindingIdentityTrailingSlashRoot() {
+// VerifIdentityTrailingSlashRoot: same with a trailing slash on the root or the
+// filesystem root itself (FINDINGS.md F1, fixed in /repo commit aa13958).
+func VerifIdentityTrailingSlashRoot() {
 	var root string
 	if verif.Choice("fs_root", 2) == 1 {
 		root = "/"
